@@ -1213,3 +1213,72 @@ def ref_id_any(n):
     while n['k'] == 'Cast':
         n = strip_all(n['e'])
     return n.get('id') if n['k'] == 'Ref' else None
+
+
+# ---------------------------------------------------------------------------------------------------------------------------
+# [RVV-TPL-REINIT] registers that generated dataset-init code advances are re-initialised by the template in every round of its loop
+
+def _asm_lines(path):
+    """(line number, text) of the instruction / label lines of a .S file without comments and preprocessor lines"""
+    t = open(path, errors='replace').read()
+    t = re.sub(r'/\*.*?\*/', lambda m: re.sub(r'[^\n]', ' ', m.group(0)), t, flags=re.S)
+    out = []
+    for n_, ln in enumerate(t.split('\n'), 1):
+        ln = ln.split('//')[0].strip()
+        if not ln or ln.startswith('#'):
+            continue
+        out.append((n_, ln))
+    return out
+
+
+def rule_rvv_tpl_reinit(ctx, R):
+    F, hs = jit.handlers(ctx, 'rvv')
+    R.rule('RVV-TPL-REINIT', 'RV64 vector dataset initialisation: every scalar register that the generated SuperscalarHash code advances in place (a constant word `addi xR, xR, imm` emitted by generateDatasetInitVectorRV64, e.g. the literal '
+           'pointer that is re-based after 255 reciprocals) is loaded by the template inside its item loop, between the loop head and the generated instructions, so that each group of items starts from the same value', min_instances=1)
+    R.saw(config='K3', unit='src/jit_compiler_rv64_vector.cpp')
+    g = [f for f in F.in_file('jit_compiler_rv64_vector.cpp') if f['name'] == 'generateDatasetInitVectorRV64']
+    if len(g) != 1:
+        raise AnalysisBroken('RVV-TPL-REINIT: generateDatasetInitVectorRV64 not found')
+    g = g[0]
+    R.saw(fn=g['q'])
+    adv = {}
+    nwords = 0
+    for x in walk(g['body']):
+        if x['k'] == 'Assign' and strip_all(x['l'])['k'] == 'Ref' and (strip_all(x['l']).get('ty') or '') in ('uint32_t', 'unsigned int'):
+            v = val(x['r'])
+            if v is None:
+                continue
+            nwords += 1
+            if (v & 0x7f) == 0x13 and ((v >> 12) & 7) == 0:           # addi rd, rs1, imm
+                rd, rs1 = (v >> 7) & 31, (v >> 15) & 31
+                if rd == rs1 and rd != 0:
+                    adv[rd] = (sx(v >> 20, 12), loc(x, g))
+    if nwords == 0:
+        raise AnalysisBroken('RVV-TPL-REINIT: no constant instruction word found in the generator')
+    path = os.path.join(ctx.repo, 'src', 'jit_compiler_rv64_vector_static.S')
+    lines = _asm_lines(path)
+    # the generated area and the loop around it
+    gen_i = [i for i, (n_, t_) in enumerate(lines) if re.match(r'^DECL\(randomx_riscv64_vector_sshash_generated_instructions\)\s*:', t_)]
+    end_i = [i for i, (n_, t_) in enumerate(lines) if re.match(r'^DECL\(randomx_riscv64_vector_sshash_generated_instructions_end\)\s*:', t_)]
+    if len(gen_i) != 1 or len(end_i) != 1:
+        raise AnalysisBroken('RVV-TPL-REINIT: generated-instructions labels not found in the template')
+    head = None
+    for i in range(end_i[0], len(lines)):
+        m = re.match(r'^(b\w+)\s+.*,\s*([A-Za-z_.][\w.]*)$', lines[i][1])
+        if m:
+            lab = m.group(2)
+            tgt = [j for j, (n_, t_) in enumerate(lines) if re.match(r'^(DECL\()?%s\)?\s*:' % re.escape(lab), t_)]
+            if tgt and tgt[0] < gen_i[0]:
+                head = tgt[0]
+                break
+        if re.match(r'^ret\b', lines[i][1]):
+            break
+    if head is None:
+        raise AnalysisBroken('RVV-TPL-REINIT: the backward branch that closes the item loop was not found after the generated instructions')
+    if not adv:
+        R.ok('no register is advanced in place by generated code', '%s:%d' % (g['file'], g['line']))
+    for r_, (imm, where) in sorted(adv.items()):
+        wr = [(n_, t_) for n_, t_ in lines[head:gen_i[0]] if re.match(r'^(lla|la|li|mv|lui|auipc|ld|lw|addi?|c\.\w+)\s+x%d\s*,' % r_, t_) and not re.match(r'^addi?\s+x%d\s*,\s*x%d\s*,' % (r_, r_), t_)]
+        R.check(bool(wr), 'x%d (advanced by `addi x%d, x%d, %d` in generated code)' % (r_, r_, r_, imm), 'src/jit_compiler_rv64_vector_static.S:%d' % lines[head][0],
+                expected='loaded between the loop head (line %d) and the generated instructions (line %d)' % (lines[head][0], lines[gen_i[0]][0]),
+                found='`%s` at line %d' % (wr[0][1], wr[0][0]) if wr else 'not written inside the loop: every group of items after the first starts from the value the previous group left (generator: %s)' % where)
